@@ -9,18 +9,25 @@ def build(ctx):
     objs = B.build_lib("asan", d)
     exes = {"h_table": B.build_harness("asan", d, "h_table", ["h_table.c", "refdec.c"], objs)}
     exes.update(B.build_tools("asan", d, objs, names=("mtbl_dump", "mtbl_info")))
+    d2 = ctx.builddir + "/plain"
+    objs2 = B.build_lib("plain", d2)
+    exes["h_table.plain"] = B.build_harness("plain", d2, "h_table.plain", ["h_table.c", "refdec.c"], objs2)
     return exes
 
 
 def run(ctx):
     exes = build(ctx)
     th = ctx.tier == "thorough"
-    ctx.fan(exes["h_table"], "c10", 40000 if th else 1500, ["--aux", exes["mtbl_info"]], timeout=120)
+    # the > 4 GiB table (every byte counter crosses 2^32) runs beside the main fan: -O2 build in quick (≈10 s), ASan too in thorough
+    big = [((exes["h_table.plain"], "big", 2 if th else 1), dict(chunk=1, timeout=900, prefix="plain.", max_workers=2))]
+    if th:
+        big.append(((exes["h_table"], "big", 2), dict(chunk=1, timeout=900, max_workers=2)))
+    ctx.fan_parallel([((exes["h_table"], "c10", 40000 if th else 1500, ["--aux", exes["mtbl_info"]]), dict(timeout=120, max_workers=14))] + big)
     s = ctx.stats
-    ctx.assumptions += ["truth = counts and byte extents computed by harness/refdec.c from the file bytes, cross-checked with what the harness fed to the writer"]
+    ctx.assumptions += ["the > 4 GiB table is checked against frame lengths read with pread and an own varint decoder (its 4 GiB of CRCs are not recomputed)", "truth = counts and byte extents computed by harness/refdec.c from the file bytes, cross-checked with what the harness fed to the writer"]
     return ctx.finish(
         rule="C01 generator plus interleaved refused adds in ~1/3 of the cases; each file: 10 metadata accessors vs truth from the bytes, mtbl_info parsed on a sampled subset; "
              "distinct = distinct (content, configuration) hashes",
         evaluations=s.get("c10.files", 0),
         floors={"c10.files": 1000, "c10.files.empty_table": 20, "c10.files.foreign_prefix": 100, "c10.files.pooled_multiblock": 50,
-                "c10.files.with_refused_adds": 100, "c10.mtbl_info_runs": 50, "c10.fields_compared.bytes_index_block": 1000})
+                "c10.files.with_refused_adds": 100, "c10.mtbl_info_runs": 50, "c10.fields_compared.bytes_index_block": 1000, "plain.big.tables_over_4GiB": 1})
